@@ -447,10 +447,7 @@ func (cx *Ctx) OpsC11(h []byte) (nontrivial bool) {
 		f := re.Find(h)
 		var wantF []byte
 		if fi != nil {
-			wantF = h[fi[0]:fi[1]:fi[1]]
-			if wantF == nil {
-				wantF = []byte{}
-			}
+			wantF = h[fi[0]:fi[1]:fi[1]] // nil exactly when the haystack itself is nil, as with package regexp
 		}
 		cx.rel("Find=h[FindIndex]", h, "", wantF, f, eqBytes(wantF, f))
 		fs := re.FindString(s)
@@ -472,9 +469,6 @@ func (cx *Ctx) OpsC11(h []byte) (nontrivial bool) {
 				a, b := smi[2*i], smi[2*i+1]
 				if a >= 0 && b >= a && b <= len(h) {
 					want[i] = h[a:b:b]
-					if want[i] == nil {
-						want[i] = []byte{}
-					}
 				} else if a != -1 || b != -1 {
 					ok = false
 				}
